@@ -329,13 +329,16 @@ class Run(Oracles):
         if kind == "apply":
             na = spec.get("nargs", 0)
             rm.args = tuple(Sentinel(f"r{rm.rid}a{k}") for k in range(na))
+            if spec.get("args_as_str") and na:
+                rm.args = tuple("abc"[:na])        # a string is an iterable of positional arguments like any other
+                rm.args_eq = True  # type: ignore[attr-defined]
             nk = spec.get("nkw", 0)
             rm.kwargs = None if nk < 0 else {f"k{k}": Sentinel(f"r{rm.rid}k{k}") for k in range(nk)}
             if "num" in spec:
                 kw["num"] = spec["num"]
             if na or spec.get("pass_args"):
                 # any iterable of positional arguments / any mapping of keyword arguments
-                kw["args"] = list(rm.args) if spec.get("args_as_list") else rm.args
+                kw["args"] = "".join(rm.args) if spec.get("args_as_str") and na else list(rm.args) if spec.get("args_as_list") else rm.args
             if nk != 0 or spec.get("pass_kwargs"):
                 if rm.kwargs is not None and spec.get("kwargs_as_mapping"):
                     from .world import StrMapping
